@@ -420,11 +420,11 @@ Section BvhNoAssert.
   Lemma insert_aabb_ok t asg bx d : WF t asg -> okbox bx -> exists t', insert_aabb t bx d = XOk t'.
   Proof.
     intros HW Hb. unfold Bvh.insert_aabb.
+    assert (Hbs : forall b, In b [bx] -> okbox b) by (intros b [<-|[]]; auto).
     destruct (insert_batch_ok C cmin cmax czero go_left cost_ok datum okbox cost_total
-                t asg [bx] (Some [Some d]) (order_none (filled _ _ t) 1) HW (Permutation_refl _))
-      as (t' & Ht'); simpl; auto.
-    - intros b [<-|[]]; auto.
-    - rewrite Ht'. simpl. eauto.
+                t asg [bx] (Some [Some d]) (order_none (filled _ _ t) 1) HW (Permutation_refl _)
+                eq_refl Hbs) as (t' & Ht').
+    rewrite Ht'. simpl. eauto.
   Qed.
 
   Lemma upd_loop_errors tm : forall cs hp t asg e,
@@ -456,13 +456,16 @@ Section BvhNoAssert.
     WF t asg -> (forall f o, In (f, o) cs -> (exists p, tm f = Some p) /\ o < length hp) ->
     exists r, upd_loop tm cs hp t = XOk r.
   Proof.
-    induction cs as [|[f o] cs IH]; intros hp t asg HW Hcs; simpl; [eauto|].
-    destruct (Hcs f o (or_introl eq_refl)) as ((p & Hp) & Ho). rewrite Hp.
-    unfold hget. destruct (nth_error hp o) as [c|] eqn:Ec; [|apply nth_error_None in Ec; lia]. simpl.
-    destruct (insert_aabb_ok t asg (aabb_of (upd c p)) (f, o) HW (aabb_ok _)) as (t' & Ht').
+    induction cs as [|[f o] cs IH]; intros hp t asg HW Hcs; [simpl; eauto|].
+    destruct (Hcs f o (or_introl eq_refl)) as ((p & Hp) & Ho).
+    destruct (nth_error hp o) as [c|] eqn:Ec; [|apply nth_error_None in Ec; lia].
+    destruct (insert_aabb_ok t asg (aabb_of (upd c p)) (@pair frame oid f o) HW (aabb_ok _)) as (t' & Ht').
     pose proof (insert_aabb_spec C le cmin cmax czero go_left cost_ok frame t asg
-                  (aabb_of (upd c p)) (f, o) HW) as Hs.
-    rewrite Ht' in Hs. rewrite Ht'. simpl. eapply IH; eauto.
+                  (aabb_of (upd c p)) (@pair frame oid f o) HW) as Hs.
+    rewrite Ht' in Hs.
+    assert (E : upd_loop tm ((f, o) :: cs) hp t = upd_loop tm cs (set_nth hp o (upd c p)) t').
+    { cbn [Bvh.upd_loop]. rewrite Hp. unfold hget. rewrite Ec. cbn [xbind]. rewrite Ht'. reflexivity. }
+    rewrite E. eapply IH; eauto.
     intros f' o' Hin. destruct (Hcs f' o' (or_intror Hin)) as (H1 & H2). split; auto.
     rewrite length_set_nth. auto.
   Qed.
